@@ -69,7 +69,8 @@ def gen_cmp(draw):
     qs = []
     for r, u in zip(refs, units):
         qs.append({"u": u, "amt": _enc_amount(draw, r / cat.scale(u))})
-    return {"k": "cmp", "t": t, "qs": qs}
+    # optionally evaluate unit quotients/products first: comparisons must not depend on earlier operations
+    return {"k": "cmp", "t": t, "qs": qs, "prime": draw(st.sampled_from([None, None, "div", "mul", "conv"]))}
 
 
 def enum_unitpairs(shard, nshards):
@@ -136,6 +137,21 @@ def run_case(case, ctx):
     if len(set(syms)) > 1:
         ctx.nontrivial()
         ctx.label("different_units")
+    prime = case.get("prime")
+    if prime:
+        ctx.label(f"primed/{prime}")
+        for a in qs[:3]:
+            for b in qs[:3]:
+                try:
+                    if prime == "div":
+                        a.unit / b.unit
+                        a / b.unit
+                    elif prime == "mul":
+                        a.unit * b.unit
+                    else:
+                        a.convert(b.unit)
+                except Exception:  # noqa: BLE001  (undefined products etc. are C02's business)
+                    pass
     close = False
     n = len(qs)
     for i in range(n):
